@@ -86,7 +86,8 @@ def write_evidence(prop, tier, seed, spec, results, wall, status, confirmed, kno
         "wall_s": round(wall, 2),
         "violations": len(confirmed),
     }
-    os.makedirs(os.path.join(HERE, "evidence"), exist_ok=True)
-    with open(os.path.join(HERE, "evidence", prop + ".json"), "w") as f:
+    evid = os.environ.get("VERIF_EVIDENCE_DIR") or os.path.join(HERE, "evidence")
+    os.makedirs(evid, exist_ok=True)
+    with open(os.path.join(evid, prop + ".json"), "w") as f:
         json.dump(ev, f, indent=1, default=str)
     return ev
